@@ -160,6 +160,46 @@ func checkC21(r *core.Run, p *core.Program) {
 		r.Check("C21.omit-table", "DecodeGoTags|tag order", f.Decl.Pos(), fieldSet["order"] == "Order", "tag word \"order\" does not set the field order")
 	}
 
+	// `omit` applies to embedded structs as well: the recursion sits inside the omit guard
+	if f := findFn(p, "iterator", "extractFields"); f != nil {
+		okGuard := false
+		found := false
+		var visit func(n ast.Node, guarded bool)
+		visit = func(n ast.Node, guarded bool) {
+			ast.Inspect(n, func(m ast.Node) bool {
+				switch x := m.(type) {
+				case *ast.IfStmt:
+					g := guarded
+					if be, ok := stripParens(x.Cond).(*ast.BinaryExpr); ok && be.Op == token.NEQ {
+						for _, side := range []ast.Expr{be.X, be.Y} {
+							if o := objOf(info, side); o != nil && o.Name() == "OmitFieldAlways" {
+								g = true
+							}
+						}
+					}
+					visit(x.Body, g)
+					if x.Else != nil {
+						visit(x.Else, guarded)
+					}
+					return false
+				case *ast.CallExpr:
+					if c := callee(info, x); c == f.Obj {
+						found = true
+						if guarded {
+							okGuard = true
+						} else {
+							okGuard = false
+						}
+					}
+				}
+				return true
+			})
+		}
+		visit(f.Decl.Body, false)
+		r.Check("C21.omit-table", "iterator.extractFields|omit applies to embedded structs", f.Decl.Pos(), found && okGuard,
+			"the fields of an embedded struct are collected outside the `omit behaviour != always` test: an embedded struct tagged ce:\"omit\" is flattened into its parent anyway")
+	}
+
 	// ---- stable order -------------------------------------------------------------------------------------
 	if f := findFn(p, "iterator", "extractFields"); f == nil {
 		r.Undecided("C21.stable-order", "iterator.extractFields")
@@ -231,6 +271,66 @@ func checkC21(r *core.Run, p *core.Program) {
 		r.Check("C21.shared-names", "builder.newStructBuilderGenerator|registers the normalised name", f.Decl.Pos(), norm, "fields are not registered under ToStructFieldIdentifier(name): case-insensitive matching cannot find them")
 	} else {
 		r.Undecided("C21.shared-names", "builder.newStructBuilderGenerator")
+	}
+	// the alias must never displace a field registered under its exact name
+	if f := findFn(p, "builder", "newStructBuilderGenerator"); f != nil {
+		guarded := false
+		ast.Inspect(f.Decl.Body, func(n ast.Node) bool {
+			ifs, ok := n.(*ast.IfStmt)
+			if !ok || ifs.Init == nil {
+				return true
+			}
+			// if _, exists := generatorDescs[alias]; !exists { generatorDescs[alias] = desc }
+			as, ok := ifs.Init.(*ast.AssignStmt)
+			if !ok || len(as.Lhs) != 2 || len(as.Rhs) != 1 {
+				return true
+			}
+			ix, ok := stripParens(as.Rhs[0]).(*ast.IndexExpr)
+			if !ok {
+				return true
+			}
+			if _, isMap := binfo.TypeOf(ix.X).Underlying().(*types.Map); !isMap {
+				return true
+			}
+			u, ok := stripParens(ifs.Cond).(*ast.UnaryExpr)
+			if !ok || u.Op != token.NOT || objOf(binfo, u.X) != objOf(binfo, as.Lhs[1]) {
+				return true
+			}
+			for _, st := range ifs.Body.List {
+				if a2, ok := st.(*ast.AssignStmt); ok && len(a2.Lhs) == 1 {
+					if ix2, ok := stripParens(a2.Lhs[0]).(*ast.IndexExpr); ok && exprStr(ix2.X) == exprStr(ix.X) && exprStr(ix2.Index) == exprStr(ix.Index) {
+						guarded = true
+					}
+				}
+			}
+			return true
+		})
+		r.Check("C21.shared-names", "builder.newStructBuilderGenerator|alias registered only when the name is free", f.Decl.Pos(), guarded,
+			"the normalised alias of a field is stored in the lookup table without testing whether that key is already taken: when it equals another field's exact (tag) name, that field can no longer be matched")
+	}
+	// one normaliser, Unicode-aware
+	if f := findFn(p, "internal/common", "ToStructFieldIdentifier"); f != nil {
+		ci := f.Pkg.TypesInfo
+		lower := false
+		inspectCalls(ci, f.Decl.Body, func(call *ast.CallExpr, c *types.Func) {
+			if c != nil && isFunc(c, "strings", "ToLower") {
+				lower = true
+			}
+		})
+		r.Check("C21.shared-names", "internal/common.ToStructFieldIdentifier|lower-cases with strings.ToLower", f.Decl.Pos(), lower,
+			"the name normaliser no longer lower-cases with strings.ToLower (the Unicode-aware function the snake-casing also uses): names with non-ASCII upper-case letters (Épée) stop matching their own marshaled key")
+	} else {
+		r.Undecided("C21.shared-names", "internal/common.ToStructFieldIdentifier")
+	}
+	if f := findFn(p, "internal/common", "CamelCaseToSnakeCase"); f != nil {
+		ci := f.Pkg.TypesInfo
+		lower := false
+		inspectCalls(ci, f.Decl.Body, func(call *ast.CallExpr, c *types.Func) {
+			if c != nil && isFunc(c, "strings", "ToLower") {
+				lower = true
+			}
+		})
+		r.Check("C21.shared-names", "internal/common.CamelCaseToSnakeCase|lower-cases with strings.ToLower", f.Decl.Pos(), lower, "the snake-casing no longer lower-cases with strings.ToLower")
 	}
 	nLookup := 0
 	for _, mname := range []string{"BuildFromStringlikeArray", "BuildFromArray"} {
